@@ -2,7 +2,7 @@ CONSTANTS
   L = 7
   LGEN = 6
   MAXTOK = 3
-  Alphabet = {123, 125, 40, 41, 60, 62, 44, 97, 32}
+  Alphabet = {123, 125, 40, 41, 60, 62, 44, 233, 32}
 SPECIFICATION Spec
 INVARIANTS StripInv IndentInv TypeOK RunInv GenInv
 CHECK_DEADLOCK TRUE
